@@ -309,6 +309,7 @@ type intTr struct {
 	hypPolys  []hypPoly // assumed  p ≡ 0 (mod m)  or, with m == nil,  p = 0 ; in hypothesis order
 	noElim    bool
 	inGoal    bool
+	skipHyp   map[*Term]bool
 }
 
 var statModsDropped, statModsKept int64
@@ -1093,8 +1094,38 @@ func reduceCoefs(p *Poly, m *big.Int) *Poly {
 	return r
 }
 
-// eliminate uses assumed congruences H ≡ 0 (mod m) that contain a lone atom with coefficient ±1 to
-// substitute that atom in the goal polynomial (latest hypotheses first). Sound: g ≡ g[atom := R] (mod m).
+// lexLess orders monomials lexicographically with the NEWEST atom (largest id) most significant.
+func lexLess(a, b []*Term) bool {
+	// atoms are sorted by increasing id; compare from the end
+	i, j := len(a)-1, len(b)-1
+	for i >= 0 && j >= 0 {
+		if a[i].id != b[j].id {
+			return a[i].id < b[j].id
+		}
+		i--
+		j--
+	}
+	return i < j
+}
+
+// divides reports whether monomial d divides monomial m and returns the quotient.
+func divides(d, m []*Term) ([]*Term, bool) {
+	var q []*Term
+	i := 0
+	for _, a := range m {
+		if i < len(d) && d[i] == a {
+			i++
+		} else {
+			q = append(q, a)
+		}
+	}
+	return q, i == len(d)
+}
+
+// eliminate reduces the goal polynomial g modulo m by the assumed congruences / equalities, latest first.
+// Each hypothesis H ≡ 0 is used as the rewrite rule  LM(H) -> -(H - LM(H))/lc  where LM is the leading monomial
+// in the lexicographic order with the newest atom most significant (so freshly havoced outputs are rewritten
+// in terms of older quantities, and x^2*y^2 is rewritten by a curve equation). Sound: g ≡ g - q*H (mod m).
 func (tr *intTr) eliminate(g *Poly, m *big.Int) *Poly {
 	var hs []*Poly
 	for _, hp := range tr.hypPolys {
@@ -1105,101 +1136,82 @@ func (tr *intTr) eliminate(g *Poly, m *big.Int) *Poly {
 	g = reduceCoefs(g, m)
 	for i := len(hs) - 1; i >= 0 && len(g.ms) > 0; i-- {
 		h := reduceCoefs(hs[i], m)
-		// g is a scalar multiple of an assumed congruence?
-		if len(h.ms) > 0 && len(h.ms) == len(g.ms) {
-			k0 := h.sortedKeys()[0]
-			if gm, ok := g.ms[k0]; ok {
-				if inv := new(big.Int).ModInverse(new(big.Int).Mod(h.ms[k0].coef, m), m); inv != nil {
-					k := new(big.Int).Mul(gm.coef, inv)
-					if d := reduceCoefs(pSub(g, pScale(h, k)), m); len(d.ms) == 0 {
-						return d
-					}
-				}
-			}
+		if len(h.ms) == 0 {
+			continue
 		}
-		// choose the lone unit-coefficient atom of h with the largest id that occurs in g
-		var atom *Term
-		var coef *big.Int
+		// leading monomial: the lexicographically largest monomial of h (newest atom first) that divides
+		// some monomial of g and has an invertible coefficient
+		var lm *pmono
+		var inv *big.Int
 		for _, mo := range h.ms {
-			if len(mo.atoms) != 1 {
+			if len(mo.atoms) == 0 {
 				continue
 			}
-			if new(big.Int).GCD(nil, nil, new(big.Int).Abs(mo.coef), m).Cmp(big1) != 0 {
+			if lm != nil && !lexLess(lm.atoms, mo.atoms) {
 				continue
 			}
-			a := mo.atoms[0]
 			occurs := false
 			for _, gm := range g.ms {
-				for _, x := range gm.atoms {
-					if x == a {
-						occurs = true
-					}
+				if _, ok := divides(mo.atoms, gm.atoms); ok {
+					occurs = true
+					break
 				}
 			}
 			if !occurs {
 				continue
 			}
-			// the atom must not occur elsewhere in h
-			cnt := 0
-			for _, hm := range h.ms {
-				for _, x := range hm.atoms {
-					if x == a {
-						cnt++
-					}
-				}
-			}
-			if cnt != 1 {
+			iv := new(big.Int).ModInverse(new(big.Int).Mod(mo.coef, m), m)
+			if iv == nil {
 				continue
 			}
-			if atom == nil || a.id > atom.id {
-				atom, coef = a, mo.coef
+			lm, inv = mo, iv
+		}
+		if lm == nil {
+			continue
+		}
+		hn := reduceCoefs(pScale(h, inv), m) // monic in lm
+		lmKey := monoKey(lm.atoms)
+		repl := &Poly{ms: map[string]*pmono{}} // lm ≡ repl
+		for k, mo := range hn.ms {
+			if k != lmKey {
+				repl.ms[k] = &pmono{coef: new(big.Int).Neg(mo.coef), atoms: mo.atoms}
 			}
 		}
-		if atom == nil {
-			continue
-		}
-		// scale h by coef^-1 (mod m) so that the atom has coefficient 1
-		inv := new(big.Int).ModInverse(new(big.Int).Mod(coef, m), m)
-		if inv == nil {
-			continue
-		}
-		h = reduceCoefs(pScale(h, inv), m)
-		sign := 1
-		// h = sign*atom + rest ≡ 0  =>  atom ≡ -sign*rest
-		rest := pSub(h, pScale(pAtom(atom, unk()), big.NewInt(int64(sign))))
-		repl := reduceCoefs(pScale(rest, big.NewInt(int64(-sign))), m)
-		ng := &Poly{ms: map[string]*pmono{}}
+		cur := g
 		tooBig := false
-		for _, gm := range g.ms {
-			if tooBig {
-				break
-			}
-			e := 0
-			var others []*Term
-			for _, x := range gm.atoms {
-				if x == atom {
-					e++
-				} else {
-					others = append(others, x)
+		for iter := 0; iter < 64 && !tooBig; iter++ {
+			ng := &Poly{ms: map[string]*pmono{}}
+			changed := false
+			for _, gm := range cur.ms {
+				q, ok := divides(lm.atoms, gm.atoms)
+				if !ok {
+					ng = pAddScaled(ng, &Poly{ms: map[string]*pmono{monoKey(gm.atoms): gm}}, big1)
+					continue
 				}
-			}
-			term := &Poly{ms: map[string]*pmono{monoKey(others): {coef: gm.coef, atoms: others}}}
-			for ; e > 0; e-- {
-				if len(term.ms)*len(repl.ms) > 3000 {
+				changed = true
+				if len(repl.ms) > 3000 {
 					tooBig = true
 					break
 				}
-				term = reduceCoefs(pMul(term, repl), m)
+				term := pMul(&Poly{ms: map[string]*pmono{monoKey(q): {coef: gm.coef, atoms: q}}}, repl)
+				ng = pAddScaled(ng, term, big1)
+				if len(ng.ms) > 8000 {
+					tooBig = true
+					break
+				}
 			}
-			ng = pAddScaled(ng, term, big1)
-			if len(ng.ms) > 6000 {
-				tooBig = true
+			if tooBig {
+				break
+			}
+			cur = reduceCoefs(ng, m)
+			if !changed {
+				break
 			}
 		}
 		if tooBig {
-			continue // this substitution would explode: leave the goal as it is for the solver
+			continue // this rewrite would explode: leave the goal for the solver
 		}
-		g = reduceCoefs(ng, m)
+		g = cur
 	}
 	g.iv = unk()
 	return g
@@ -1209,11 +1221,13 @@ func (tr *intTr) eliminate(g *Poly, m *big.Int) *Poly {
 func (tr *intTr) hyp(t *Term) *Term {
 	if x, m, ok := isModZero(t); ok {
 		p := tr.integer(x)
-		tr.hypPolys = append(tr.hypPolys, hypPoly{p, m})
+		if !tr.skipHyp[t] {
+			tr.hypPolys = append(tr.hypPolys, hypPoly{p, m})
+		}
 		k := Var("k!"+strconv.FormatInt(t.id, 36), IntSort)
 		return Eq(polyTerm(p), IMul(k, IntC(m)))
 	}
-	if t.op == OEq && t.args[0].sort.K == KInt {
+	if t.op == OEq && t.args[0].sort.K == KInt && !tr.skipHyp[t] {
 		tr.hypPolys = append(tr.hypPolys, hypPoly{pSub(tr.integer(t.args[0]), tr.integer(t.args[1])), nil})
 	}
 	return tr.boolean(t)
